@@ -33,6 +33,8 @@ type Opts struct {
 	Thorough   bool
 	Converters bool
 	Python     bool
+	// Twins adds two-package units (the schema as packages p and q) for the nil-guarded veneer variants.
+	Twins bool
 	// Only restricts the run to one witness (replay).
 	Only string
 }
@@ -44,6 +46,8 @@ type Variant struct {
 	// Applies decides from the abstract schema whether the rule can change a builder.
 	Applies func(s gschema.Schema) bool
 	YAML    string
+	// Rewrite, when set, post-processes the rendered schema text (no veneer: a flavour of the schema itself).
+	Rewrite func(format, text string) string
 }
 
 // Only one field of two-field roots is rewritten, so that a rule never
@@ -124,15 +128,21 @@ func ExtraSchemas() []gschema.Schema {
 	} {
 		out = append(out, gschema.Field1(t, true), gschema.Field1(t, false))
 	}
-	out = append(out, ShapesSchema())
+	for n := 0; n <= maxShapeConsts; n++ {
+		out = append(out, ShapesSchema(n))
+	}
+	out = append(out, StructDefaultSchemas()...)
 	return out
 }
 
 // Schemas is the case set of the tier: the struct-rooted part of grammar G plus ExtraSchemas.
-func Schemas(thorough bool) []gschema.Schema {
+func Schemas(thorough bool, shapeConstants bool) []gschema.Schema {
 	seen := map[string]bool{}
 	var out []gschema.Schema
 	for _, s := range append(gschema.Enumerate(thorough), ExtraSchemas()...) {
+		if !shapeConstants && shapeConsts(s) > 0 {
+			continue // the constant members only matter to the converters' choice of a builder (C14)
+		}
 		if s.Objs[0].T.K != "struct" || seen[s.String()] {
 			continue
 		}
@@ -157,6 +167,12 @@ type Case struct {
 	API         genrun.GoAPI
 	// Go / Py: builder IR of the unit as the real pipeline derives it for that language.
 	Go, Py *IR
+	// Twin: "" | "p" | "q" - the unit holds the schema twice, as packages p and q
+	// (same objects, builders and options); this case judges the named package.
+	Twin string
+	// Validators: reference validators of the root object (of the rewritten rendering when the variant rewrites it).
+	Validators map[string]gschema.Validator
+	rewrite    func(format, text string) string
 	// Noop: the veneer variant left every builder unchanged (the case duplicates the plain one).
 	Noop bool
 	// Fallback: the unit did not compile with the standard flags (BlockedWith) and is judged on
@@ -167,11 +183,58 @@ type Case struct {
 	Dup bool
 }
 
+// PkgName is the package this case judges.
+func (c *Case) PkgName() string {
+	if c.Twin == "q" {
+		return "q"
+	}
+	return gschema.Pkg
+}
+
+// Key is the driver registry prefix of the case's package.
+func (c *Case) Key() string {
+	if c.Twin == "q" {
+		return c.Unit.ID + "@q"
+	}
+	return c.Unit.ID
+}
+
+// Tag names the builder variant in failure kinds (the judged package of a twin unit is not part of it).
+func (c *Case) Tag() string {
+	t := c.Variant
+	if c.Twin != "" {
+		t += "+twin"
+	}
+	return t
+}
+
+// ValidatorsOf builds the reference validators of a schema the way this case renders it.
+func (c *Case) ValidatorsOf(s gschema.Schema) map[string]gschema.Validator {
+	if c.rewrite == nil {
+		v, _ := s.Validators()
+		return v
+	}
+	out := map[string]gschema.Validator{}
+	for _, f := range gschema.Formats {
+		r, err := s.Render(f)
+		if err != nil {
+			continue
+		}
+		if v, err := gschema.NewValidator(f, c.rewrite(f, r.Main), s.Objs[0].Name); err == nil {
+			out[f] = v
+		}
+	}
+	return out
+}
+
 // Witness is the canonical identity of the case.
 func (c *Case) Witness() string {
 	f := c.Format
 	if c.Variant != "" {
 		f += "+" + c.Variant
+	}
+	if c.Twin != "" {
+		f += "+twin-" + c.Twin
 	}
 	return f + " :: " + c.Schema.String()
 }
@@ -184,9 +247,19 @@ func (c *Case) Parents() []string {
 	if c.Variant != "" {
 		suffix = "+" + c.Variant
 	}
+	if c.Twin != "" {
+		suffix += "+twin-" + c.Twin
+	}
 	for _, p := range genrun.CaseParents(c.Schema, c.Format) {
 		i := strings.Index(p, " :: ")
 		out = append(out, p[:i]+suffix+p[i:])
+	}
+	if c.Twin != "" {
+		base := c.Format
+		if c.Variant != "" {
+			base += "+" + c.Variant
+		}
+		out = append(out, base+" :: "+c.Schema.String())
 	}
 	if c.Variant != "" {
 		out = append(out, c.Format+" :: "+c.Schema.String())
@@ -205,6 +278,9 @@ func (c *Case) Size() int {
 	if c.Variant != "" {
 		n += 5
 	}
+	if c.Twin != "" {
+		n += 3
+	}
 	return n
 }
 
@@ -214,12 +290,14 @@ type IR struct {
 	Err string
 }
 
-func (ir *IR) Builder(name string) (ast.Builder, bool) {
+func (ir *IR) Builder(name string) (ast.Builder, bool) { return ir.BuilderIn(gschema.Pkg, name) }
+
+func (ir *IR) BuilderIn(pkg, name string) (ast.Builder, bool) {
 	if ir == nil {
 		return ast.Builder{}, false
 	}
 	for _, b := range ir.Ctx.Builders {
-		if b.Package == gschema.Pkg && b.Name == name {
+		if b.Package == pkg && b.Name == name {
 			return b, true
 		}
 	}
@@ -291,21 +369,65 @@ func FindFunc(api genrun.GoAPI, want string) string {
 	return ""
 }
 
+// formatsFor: thorough renders every format; quick renders JSON Schema, plus
+// OpenAPI and CUE for the schemas whose behaviour depends on what the
+// front-end makes of constraints and struct-level defaults.
+func formatsFor(s gschema.Schema, thorough bool) []string {
+	if thorough {
+		return gschema.Formats
+	}
+	special := false
+	for _, o := range s.Objs {
+		walkTerm(o.T, func(t gschema.Term) {
+			if t.Constr || t.Default == StructDefault {
+				special = true
+			}
+		})
+	}
+	if special {
+		return gschema.Formats
+	}
+	return []string{"jsonschema"}
+}
+
+func walkTerm(t gschema.Term, f func(gschema.Term)) {
+	f(t)
+	for _, s := range t.Sub {
+		walkTerm(s, f)
+	}
+}
+
+// twinVariants: the veneer rules whose assignments go through nil-guards; they
+// are also generated as two-package units (same objects, builders and options in p and q).
+var twinVariants = map[string]bool{"fieldopts": true, "fieldargs": true, "index": true, "append": true, "": false}
+
+func unitLetter(i int) string { return string(rune('a' + i)) }
+
+// twinRender adds package q (a copy of package p) to a rendering.
+func twinRender(r gschema.Rendered) (map[string]string, string) {
+	files := map[string]string{}
+	for name, text := range r.Files {
+		files[name] = text
+		qn := strings.NewReplacer("p.json", "q.json", "p/", "q/").Replace(name)
+		files[qn] = strings.Replace(text, "package p\n", "package q\n", 1)
+	}
+	second := strings.NewReplacer("/p.json", "/q.json", "package: p", "package: q", "%DIR%/p'", "%DIR%/q'").Replace(r.InputYAML)
+	return files, r.InputYAML + "\n  " + second
+}
+
 // Prepare renders, generates, loads the IR, compiles and links.
 func Prepare(ws *genrun.Workspace, o Opts) (*Prepared, error) {
 	p := &Prepared{WS: ws, Skipped: map[string]int{}}
-	p.Schemas = Schemas(o.Thorough)
-	formats := []string{"jsonschema"}
-	if o.Thorough {
-		formats = gschema.Formats
-	}
+	p.Schemas = Schemas(o.Thorough, o.Converters)
 	variants := append([]Variant{{Name: ""}}, Variants()...)
 	variants = append(variants, ScenarioVariants()...)
+	variants = append(variants, BoundsVariant())
 	var units []genrun.Unit
+	haveUnit := map[string]bool{}
 	for i, s := range p.Schemas {
 		vals, _ := s.Validators()
 		p.Validators = append(p.Validators, vals)
-		for _, f := range formats {
+		for _, f := range formatsFor(s, o.Thorough) {
 			r, err := s.Render(f)
 			if err != nil {
 				p.Skipped[f]++
@@ -315,37 +437,85 @@ func Prepare(ws *genrun.Workspace, o Opts) (*Prepared, error) {
 				if v.Name != "" && !v.Applies(s) {
 					continue
 				}
-				c := &Case{Index: i, Schema: s, Format: f, Variant: v.Name}
-				if o.Only != "" && c.Witness() != o.Only {
-					continue
+				rv := r
+				if v.Rewrite != nil {
+					rv.Files = map[string]string{}
+					for n, t := range r.Files {
+						rv.Files[n] = v.Rewrite(f, t)
+					}
+					rv.Main = v.Rewrite(f, r.Main)
+					if rv.Main == r.Main {
+						continue // nothing to rewrite in this rendering
+					}
 				}
-				u := genrun.Unit{ID: fmt.Sprintf("s%04d%s%d", i, f[:1], vi), Files: r.Files, InputYAML: r.InputYAML,
-					Types: true, Builders: true, Converters: o.Converters,
-					Go: &genrun.GoOpts{JSONMarshaller: true, Validate: true}}
-				if o.Python {
-					u.Python, u.PythonJSON = true, true
+				twins := []string{""}
+				// quick: two-package units for the JSON Schema rendering of one-member roots only
+				if o.Twins && twinVariants[v.Name] && (o.Thorough || f == "jsonschema" && len(s.Objs[0].T.Sub) == 1) {
+					twins = []string{"", "p", "q"}
 				}
-				if v.Name != "" {
-					u.VeneersYAML = map[string]string{"v.yaml": v.YAML}
+				for _, tw := range twins {
+					c := &Case{Index: i, Schema: s, Format: f, Variant: v.Name, Twin: tw, rewrite: v.Rewrite, Validators: vals}
+					if v.Rewrite != nil {
+						c.Validators = c.ValidatorsOf(s)
+					}
+					if o.Only != "" && c.Witness() != o.Only {
+						continue
+					}
+					u := genrun.Unit{ID: fmt.Sprintf("s%04d%s%s", i, f[:1], unitLetter(vi)), Files: rv.Files, InputYAML: rv.InputYAML,
+						Types: true, Builders: true, Converters: o.Converters,
+						Go: &genrun.GoOpts{JSONMarshaller: true, Validate: true}}
+					if o.Python {
+						u.Python, u.PythonJSON = true, true
+					}
+					if v.YAML != "" {
+						u.VeneersYAML = map[string]string{"v.yaml": v.YAML}
+					}
+					if tw != "" {
+						u.ID += "t"
+						u.Files, u.InputYAML = twinRender(rv)
+						if v.YAML != "" {
+							u.VeneersYAML["w.yaml"] = strings.Replace(v.YAML, "package: p\n", "package: q\n", 1)
+						}
+					}
+					c.Unit = u
+					p.Cases = append(p.Cases, c)
+					if !haveUnit[u.ID] {
+						haveUnit[u.ID] = true
+						units = append(units, u)
+					}
 				}
-				c.Unit = u
-				p.Cases = append(p.Cases, c)
-				units = append(units, u)
 			}
 		}
 	}
 	results := ws.Generate(units)
+	irCache := map[string]*IR{}
+	loadIR := func(u genrun.Unit, lang string) *IR {
+		k := u.ID + "/" + lang
+		if ir, ok := irCache[k]; ok {
+			return ir
+		}
+		ir := LoadIR(ws, u, lang)
+		irCache[k] = ir
+		return ir
+	}
 	plainIR := map[string]string{}
+	noopVariant := map[string]bool{}
 	for _, c := range p.Cases {
 		c.Result = results[c.Unit.ID]
 		if c.Result.Status != "ok" {
 			continue
 		}
-		c.Go = LoadIR(ws, c.Unit, "go")
+		c.Go = loadIR(c.Unit, "go")
 		if o.Python {
-			c.Py = LoadIR(ws, c.Unit, "python")
+			c.Py = loadIR(c.Unit, "python")
 		}
 		key := fmt.Sprintf("%d/%s", c.Index, c.Format)
+		if c.Twin != "" {
+			if noopVariant[key+"/"+c.Variant] {
+				c.Noop = true
+			}
+			continue
+		}
 		sig := vx.JSON(c.Go.Ctx.Builders)
 		if c.Py != nil {
 			sig += vx.JSON(c.Py.Ctx.Builders)
@@ -357,18 +527,18 @@ func Prepare(ws *genrun.Workspace, o Opts) (*Prepared, error) {
 		} else if dupOptions(c.Go) || dupOptions(c.Py) {
 			c.Noop, c.Dup = true, true
 		}
+		if c.Noop {
+			noopVariant[key+"/"+c.Variant] = true
+		}
 	}
-	addDump := func(cases []*Case) {
+	addDump := func(ids []string) {
 		if !o.Converters {
 			return
 		}
 		// The converters call cog.Dump, which the Go runtime jenny never
 		// emits (known C02 finding): supply it so that the unit compiles.
-		for _, c := range cases {
-			if c.Result.Status != "ok" || c.Noop {
-				continue
-			}
-			dir := filepath.Join(ws.Dir, "out/go", c.Unit.ID, "cog")
+		for _, id := range ids {
+			dir := filepath.Join(ws.Dir, "out/go", id, "cog")
 			if _, err := os.Stat(dir); err != nil {
 				continue
 			}
@@ -379,13 +549,16 @@ func Prepare(ws *genrun.Workspace, o Opts) (*Prepared, error) {
 			p.DumpAdded++
 		}
 	}
-	addDump(p.Cases)
+	var liveIDs []string
 	for _, c := range p.Cases {
 		if c.Noop {
 			os.RemoveAll(filepath.Join(ws.Dir, "out/go", c.Unit.ID))
 			os.RemoveAll(filepath.Join(ws.Dir, "out/python", c.Unit.ID))
+		} else if c.Result.Status == "ok" {
+			liveIDs = append(liveIDs, c.Unit.ID)
 		}
 	}
+	addDump(liveIDs)
 	errs := ws.BuildGo()
 	unitErrs := func(id string) []string {
 		var out []string
@@ -402,7 +575,7 @@ func Prepare(ws *genrun.Workspace, o Opts) (*Prepared, error) {
 	// generated once more with the strict unmarshaller added (the unused
 	// imports of union types disappear then): if that compiles the case is
 	// judged on it (Fallback), otherwise it stays blocked_by=C02.
-	var retry []*Case
+	retryOf := map[string]genrun.Unit{}
 	var retryUnits []genrun.Unit
 	for _, c := range p.Cases {
 		if c.Result.Status != "ok" || c.Noop {
@@ -410,38 +583,42 @@ func Prepare(ws *genrun.Workspace, o Opts) (*Prepared, error) {
 		}
 		if e := unitErrs(c.Unit.ID); len(e) > 0 {
 			c.CompileErrs = e
-			u := c.Unit
-			u.ID += "x"
-			g := *u.Go
-			g.StrictUnmarshaller = true
-			u.Go = &g
-			retry = append(retry, c)
-			retryUnits = append(retryUnits, u)
+			if _, done := retryOf[c.Unit.ID]; !done {
+				u := c.Unit
+				u.ID += "x"
+				g := *u.Go
+				g.StrictUnmarshaller = true
+				u.Go = &g
+				retryOf[c.Unit.ID] = u
+				retryUnits = append(retryUnits, u)
+			}
 		}
 	}
-	if len(retry) > 0 {
+	if len(retryUnits) > 0 {
 		res2 := ws.Generate(retryUnits)
-		var again []*Case
-		for i := range retry {
-			r := res2[retryUnits[i].ID]
-			if r.Status != "ok" {
-				continue
+		var again []string
+		for _, u := range retryUnits {
+			if res2[u.ID].Status == "ok" {
+				again = append(again, u.ID)
 			}
-			again = append(again, &Case{Unit: retryUnits[i], Result: r})
 		}
 		addDump(again)
 		errs = ws.BuildGo()
-		for i, c := range retry {
-			r := res2[retryUnits[i].ID]
-			if r.Status != "ok" || len(unitErrs(retryUnits[i].ID)) > 0 {
+		for _, c := range p.Cases {
+			u, ok := retryOf[c.Unit.ID]
+			if !ok || len(c.CompileErrs) == 0 {
+				continue
+			}
+			r := res2[u.ID]
+			if r.Status != "ok" || len(unitErrs(u.ID)) > 0 {
 				continue
 			}
 			c.BlockedWith = c.CompileErrs
 			c.CompileErrs = nil
-			c.Unit, c.Result, c.Fallback = retryUnits[i], r, true
-			c.Go = LoadIR(ws, c.Unit, "go")
+			c.Unit, c.Result, c.Fallback = u, r, true
+			c.Go = loadIR(c.Unit, "go")
 			if o.Python {
-				c.Py = LoadIR(ws, c.Unit, "python")
+				c.Py = loadIR(c.Unit, "python")
 			}
 		}
 	}
@@ -454,7 +631,7 @@ func Prepare(ws *genrun.Workspace, o Opts) (*Prepared, error) {
 		if len(c.CompileErrs) > 0 {
 			continue
 		}
-		rel := c.Unit.ID + "/" + gschema.Pkg
+		rel := c.Unit.ID + "/" + c.PkgName()
 		if _, err := os.Stat(filepath.Join(ws.Dir, "out/go", rel)); err != nil {
 			continue
 		}
@@ -473,18 +650,18 @@ func Prepare(ws *genrun.Workspace, o Opts) (*Prepared, error) {
 				regAPI.Funcs = append(regAPI.Funcs, f)
 			}
 		}
-		dp := genrun.DriverPkg{Key: c.Unit.ID, Import: prefix + gschema.Pkg, API: regAPI}
+		dp := genrun.DriverPkg{Key: c.Key(), Import: prefix + c.PkgName(), API: regAPI}
 		var extra strings.Builder
 		for _, b := range c.Go.Ctx.Builders {
-			if b.Package != gschema.Pkg {
+			if b.Package != c.PkgName() {
 				continue
 			}
 			if fn := FindFunc(api, "New"+GoName(b.Name)+"Builder"); fn != "" {
-				fmt.Fprintf(&extra, "\tregBuilder(%q, %s.%s)\n", c.Unit.ID+"."+b.Name, dp.Alias(), fn)
+				fmt.Fprintf(&extra, "\tregBuilder(%q, %s.%s)\n", c.Key()+"."+b.Name, dp.Alias(), fn)
 			}
 			if o.Converters {
 				if fn := FindFunc(api, GoName(b.Name)+"Converter"); fn != "" {
-					fmt.Fprintf(&extra, "\tregConverter(%q, %s.%s)\n", c.Unit.ID+"."+b.Name, dp.Alias(), fn)
+					fmt.Fprintf(&extra, "\tregConverter(%q, %s.%s)\n", c.Key()+"."+b.Name, dp.Alias(), fn)
 				}
 			}
 		}
